@@ -58,6 +58,7 @@ type Violation struct {
 	Entry     string     `json:"entry"`
 	Stack     []string   `json:"stack,omitempty"`
 	EnvChoice bool       `json:"env_choice"` // path took a non-default engine-side (stub) decision
+	Unreached string     `json:"unreached,omitempty"` // cross-path: this expected witness label was never reached
 }
 
 type PathSample struct {
@@ -81,6 +82,7 @@ type Engine struct {
 	api        []APIEvent
 	observes   []Observation
 	reachedNow []string
+	Expected   map[string][]APIEvent // label -> API prefix of the first path that declared it
 	envChoice  bool
 	jsonVals   []value
 	events     [][2]value
@@ -117,7 +119,7 @@ var E *Engine
 func NewEngine(solverKind string) *Engine {
 	e := &Engine{z: newSolver(solverKind), defs: map[string]string{}, declared: map[string]bool{}, Reached: map[string]int{},
 		MaxPaths: 200000, Aborted: map[string]int{}, AssertLabels: map[string]int{}, Stubs: map[string]int{},
-		Params: map[string]int{}, KFOpen: map[string]bool{}, SampleN: 40}
+		Expected: map[string][]APIEvent{}, Params: map[string]int{}, KFOpen: map[string]bool{}, SampleN: 40}
 	return e
 }
 
